@@ -69,3 +69,36 @@ Example C01_nonvacuous :
 Proof.
   split; [repeat constructor|]. eexists. exists (100#1). split; [vm_compute; reflexivity|reflexivity].
 Qed.
+
+
+Require Import Pams.Sim Pams.SimInv Pams.SimBooks Pams.SimMarketLift Pams.SimFillLimits.
+
+(* IN EVERY SIMULATION (theories/SimFillLimits.v, an instance of the generic lifting SimMarketLift.market_invariant_of_every_run):
+   for every configuration with distinct market ids, every tape of runner decisions, every agent behaviour and every set of events, if
+   the accepted orders have positive volume and time-to-live (Order.__init__ enforces it), then for every market of the run each fill
+   among that market's records is preceded by the acceptance records of its buy order and of its sell order, names their agents, and
+   its price is no higher than the limit the buy order was ACCEPTED with (after tick rounding) and no lower than the limit the sell order
+   was accepted with; market orders impose no bound. *)
+Theorem C01_fills_honour_accepted_limits_in_every_run : forall c tape batches funds,
+  NoDup (map mc_id (c_markets c)) ->
+  let s := run c tape batches funds in
+  valid_tr s -> forall x, In x (s_markets s) ->
+  forall before mk t ba sa bi si p v after,
+    of_mkt (m_id (mk_m x)) (truths (events_of s)) = before ++ RExec mk t ba sa bi si p v :: after ->
+    exists ob os, In (ROrder ob) before /\ In (ROrder os) before /\ oid ob = bi /\ oid os = si /\ isbuy ob = true /\ isbuy os = false /\
+                  Match.agent ob = ba /\ Match.agent os = sa /\
+                  (forall l, price ob = Some l -> (p <= l)%Q) /\ (forall l, price os = Some l -> (l <= p)%Q).
+Proof. exact fills_honour_accepted_limits_in_every_run. Qed.
+Print Assumptions C01_fills_honour_accepted_limits_in_every_run.
+
+Example C01_run_nonvacuous :
+  let c := mkCfg [mkMC 0 (1#1) (100#1) None 1] [mkAC 0 false (1000#1) [(0, 10)]; mkAC 1 false (1000#1) [(0, 10)]]
+                 [mkSC 0 2 true true 2 1 (0#1)] [] in
+  let tape := [TPerm [0; 1]; TPerm [0; 1]; TDraw (1#2); TDraw (1#2);
+               TPerm [0; 1]; TPerm [0]; TDraw (1#2)]%nat in
+  let batches := [(0, [RNew 1 0 0 false (Some (100#1)) 5 None]); (1, [RNew 2 1 0 true (Some (100#1)) 2 None]);
+                  (0, [Sim.RCancel 1 0 0]); (1, [])] in
+  let funds := [(0, 0, 100#1); (0, 1, 100#1); (0, 2, 100#1)] in
+  let s := run c tape batches funds in
+  exists o1 o2 t c1 tc, of_mkt 0 (truths (events_of s)) = [ROrder o1; ROrder o2; RExec 0 t 1 0 1 0 (100#1) 2; Market.RCancel c1 tc].
+Proof. vm_compute. repeat eexists. Qed.
